@@ -23,7 +23,7 @@ SHARD_TIMEOUT = {"quick": 600, "thorough": 1800}
 
 def gen_cases(tier, seed):
     rng = gen.rng_for(seed, "c08", tier)
-    n = 1800 if tier == "quick" else 15000
+    n = 1800 if tier == "quick" else 80000
     cases = []
     for k in range(n):
         kind = ["SGD", "Adam", "AdamW"][k % 3]
